@@ -84,6 +84,7 @@ Section Generic.
   Variable enc : list (string * erule).
   Variable exts : list (string * codec).
   Variable edn : bool.
+  Variable tng : bool.
   Hypothesis Henum : assoc "Enum" enc = Some EName.
   Hypothesis Hpath : assoc "PathLike" enc = Some EFspath.
   Hypothesis Hlist : assoc "list" enc = Some ESeq.
@@ -92,8 +93,8 @@ Section Generic.
                        assoc sfx exts = Some CJson \/ assoc sfx exts = Some CYaml \/ assoc sfx exts = Some CPickle.
 
   Let enc' := encode_cfg enc.
-  Let fin := finish_default str2bool emc edn.
-  Let vvc := value_via_config str2bool emc edn.
+  Let fin := finish_default str2bool emc edn tng.
+  Let vvc := value_via_config str2bool emc edn tng.
 
   (* what a value is read back as: encode, then load *)
   Definition reload (v : value) : value := decode (enc' v).
@@ -332,14 +333,14 @@ Section Generic.
 
   (* ---------- trees of dataclasses: the loop composes leaf by leaf ---------- *)
   Let tod := to_dict enc.
-  Let ld := load_cfg str2bool emc edn.
+  Let ld := load_cfg str2bool emc edn tng.
 
   (* every leaf of the instance comes back unchanged through its own field; names are distinct in every class *)
   Fixpoint loops (s : schema) (x : inst) {struct s} : Prop :=
     match s, x with
     | SLeaf t defn, ILeaf v => vvc t defn (enc' v) = Ok v
     | SNode fs, INode xs => NoDup (map fst fs) /\ all2P loops fs xs
-    | SOpt s', ILeaf VNone => absent_err str2bool emc edn s' = None      (* an Optional member that is None *)
+    | SOpt s', ILeaf VNone => absent_err str2bool emc edn tng s' = None      (* an Optional member that is None *)
     | SOpt s', INode _ => loops s' x    (* ... that holds an instance *)
     | _, _ => False
     end.
@@ -383,27 +384,27 @@ Section Generic.
       + cbn [loops] in H. specialize (IH (INode xs) H). unfold ld, tod in IH |- *. cbn [to_dict load_cfg] in IH |- *. exact IH.
   Qed.
 
-  (* a class whose Tuple fields all have definition defaults is processed without error when the member is None *)
+  (* with the None guard in postprocess' tuple branch, the fields of a None member are processed without error *)
+  Hypothesis Htng : tng = true.
   Lemma as_default_none t : as_argparse_default edn t VNone = VNone.
   Proof. unfold as_argparse_default. destruct edn; [destruct t|]; reflexivity. Qed.
 
-  Lemma member_loads_ok : forall s, member_loads s = true -> absent_err str2bool emc edn s = None.
+  Lemma member_loads_ok : forall s, member_loads s = true -> absent_err str2bool emc edn tng s = None.
   Proof.
-    apply (schema_nested_ind (fun s => member_loads s = true -> absent_err str2bool emc edn s = None)).
+    apply (schema_nested_ind (fun s => member_loads s = true -> absent_err str2bool emc edn tng s = None)).
     - intros t defn H. cbn [absent_err].
-      assert (Hnone : match t with TTupFix _ | TTupVar _ => false | _ => true end = true ->
-                      finish_default str2bool emc edn t VNone = Ok VNone).
-      { intros Ht. destruct t; try discriminate Ht; try (unfold finish_default; rewrite as_default_none; reflexivity).
+      assert (Hnone : finish_default str2bool emc edn tng t VNone = Ok VNone).
+      { destruct t; try (unfold finish_default; rewrite as_default_none; cbn; try rewrite Htng; reflexivity).
         apply finish_opt_none. }
       destruct defn as [d|]; cbn [member_loads field_default] in *.
       + destruct (match d with VNone => true | _ => false end) eqn:Ed.
-        * destruct d; try discriminate Ed. rewrite (Hnone H). reflexivity.
+        * destruct d; try discriminate Ed. rewrite Hnone. reflexivity.
         * assert (Hd : d <> VNone) by (intro E; subst d; discriminate Ed).
           assert (H' : cfg_type t && has_type d t = true) by (destruct d; try exact H; discriminate Ed).
           apply andb_true_iff in H'. destruct H' as [Hc Ht].
           pose proof (finish_live t d Hc Ht Hd) as Hl. unfold fin in Hl.
           destruct d; try (rewrite Hl; reflexivity); discriminate Ed.
-      + rewrite (Hnone H). reflexivity.
+      + rewrite Hnone. reflexivity.
     - intros fs IH H. cbn [member_loads absent_err] in *.
       induction IH as [|[n s'] r Hhd _ IHr]; [reflexivity|].
       cbn [forallb snd first_err_fields] in *. apply andb_true_iff in H. destruct H as [H1 H2].
@@ -438,7 +439,7 @@ Section Generic.
       + apply str_nodupb_NoDup. exact Hnd.
       + apply quantifier_all2; assumption.
     - intros s IH x Hq Hs. destruct x as [v|xs|w]; try discriminate Hq.
-      + destruct v; try discriminate Hq. cbn [side_conditions loops] in *. apply member_loads_ok. exact Hs.
+      + destruct v; try discriminate Hq. cbn [in_quantifier loops] in *. destruct s; try discriminate Hq. apply member_loads_ok. exact Hq.
       + cbn [in_quantifier side_conditions loops] in *. destruct s; try discriminate Hq. apply IH; assumption.
   Qed.
 
@@ -461,7 +462,7 @@ Section Generic.
 
   Theorem tree_loop sfx s x :
     str_in sfx four_suffixes = true -> in_quantifier s x = true -> side_conditions s x = true ->
-    config_loop str2bool emc enc exts edn sfx s x = Ok x.
+    config_loop str2bool emc enc exts edn tng sfx s x = Ok x.
   Proof.
     intros Hs Hq Hc. unfold config_loop. fold tod. rewrite (roundtrip_plain sfx (tod x) Hs (to_dict_plain x)).
     cbn [bind]. apply tree_compose. apply quantifier_loops; assumption.
@@ -470,7 +471,7 @@ Section Generic.
   (* the destination-keyed file of ArgumentParser.add_arguments(cls, dest) carries the same section *)
   Theorem rooted_same dest sfx s x :
     str_in sfx four_suffixes = true ->
-    config_loop_rooted str2bool emc enc exts edn dest sfx s x = config_loop str2bool emc enc exts edn sfx s x.
+    config_loop_rooted str2bool emc enc exts edn tng dest sfx s x = config_loop str2bool emc enc exts edn tng sfx s x.
   Proof.
     intros Hs. unfold config_loop_rooted, config_loop. fold tod.
     rewrite (roundtrip_plain sfx (tod x) Hs (to_dict_plain x)).
@@ -555,7 +556,7 @@ Section Generic.
 
   Theorem tree_meets_spec sfx s x :
     str_in sfx four_suffixes = true -> in_quantifier s x = true -> side_conditions s x = true ->
-    spec_loop s x (config_loop str2bool emc enc exts edn sfx s x) = true.
+    spec_loop s x (config_loop str2bool emc enc exts edn tng sfx s x) = true.
   Proof.
     intros Hs Hq Hc. rewrite (tree_loop sfx s x Hs Hq Hc). unfold spec_loop.
     rewrite inst_eqb_refl, (quantifier_typed s x Hq). reflexivity.
@@ -567,6 +568,7 @@ Lemma gen_enum : assoc "Enum" encode_table_gen = Some EName. Proof. vm_compute. 
 Lemma gen_path : assoc "PathLike" encode_table_gen = Some EFspath. Proof. vm_compute. reflexivity. Qed.
 Lemma gen_list : assoc "list" encode_table_gen = Some ESeq. Proof. vm_compute. reflexivity. Qed.
 Lemma gen_tuple : assoc "tuple" encode_table_gen = Some ESeq. Proof. vm_compute. reflexivity. Qed.
+Lemma gen_tng : tuple_none_guard_gen = true. Proof. reflexivity. Qed.
 Lemma gen_exts : forall sfx, str_in sfx four_suffixes = true ->
   assoc sfx extensions_gen = Some CJson \/ assoc sfx extensions_gen = Some CYaml \/ assoc sfx extensions_gen = Some CPickle.
 Proof.
@@ -577,7 +579,7 @@ Qed.
 
 Definition reload_gen := reload encode_table_gen.
 Definition comes_back_gen := comes_back encode_table_gen.
-Definition loops_gen := loops str2bool_gen enum_miss_cls_gen encode_table_gen enum_default_as_name_gen.
+Definition loops_gen := loops str2bool_gen enum_miss_cls_gen encode_table_gen enum_default_as_name_gen tuple_none_guard_gen.
 
 (* the property, stated in full for one field *)
 Definition loop_statement : Prop :=
@@ -613,76 +615,77 @@ Proof. vm_compute. reflexivity. Qed.
 Theorem leaf_characterised_gen : forall t defn v,
   cfg_type t = true -> defn_typed t defn = true -> has_type v t = true ->
   value_via_config_gen t defn (encode_cfg_gen v) = Ok (comes_back_gen defn v).
-Proof. exact (leaf_characterised str2bool_gen enum_miss_cls_gen encode_table_gen enum_default_as_name_gen gen_enum gen_path gen_list gen_tuple). Qed.
+Proof. exact (leaf_characterised str2bool_gen enum_miss_cls_gen encode_table_gen enum_default_as_name_gen tuple_none_guard_gen gen_enum gen_path gen_list gen_tuple). Qed.
 
 Theorem leaf_partial_gen : forall t defn v,
   cfg_type t = true -> defn_typed t defn = true -> has_type v t = true ->
   items_plain t = true -> not_null_over_default defn v = true ->
   value_via_config_gen t defn (encode_cfg_gen v) = Ok v.
-Proof. exact (leaf_partial str2bool_gen enum_miss_cls_gen encode_table_gen enum_default_as_name_gen gen_enum gen_path gen_list gen_tuple). Qed.
+Proof. exact (leaf_partial str2bool_gen enum_miss_cls_gen encode_table_gen enum_default_as_name_gen tuple_none_guard_gen gen_enum gen_path gen_list gen_tuple). Qed.
 
 Theorem scalar_loop_gen : forall t defn v,
   is_item t = true -> has_type v t = true -> value_via_config_gen t defn (encode_cfg_gen v) = Ok v.
-Proof. exact (scalar_loop str2bool_gen enum_miss_cls_gen encode_table_gen enum_default_as_name_gen gen_enum gen_path gen_list gen_tuple). Qed.
+Proof. exact (scalar_loop str2bool_gen enum_miss_cls_gen encode_table_gen enum_default_as_name_gen tuple_none_guard_gen gen_enum gen_path gen_list gen_tuple). Qed.
 
 Theorem tuple_loop_gen : forall ts defn vs,
   forallb plain_item ts = true -> has_type (VTup vs) (TTupFix ts) = true ->
   value_via_config_gen (TTupFix ts) defn (encode_cfg_gen (VTup vs)) = Ok (VTup vs).
-Proof. exact (tuple_loop str2bool_gen enum_miss_cls_gen encode_table_gen enum_default_as_name_gen gen_enum gen_path gen_list gen_tuple). Qed.
+Proof. exact (tuple_loop str2bool_gen enum_miss_cls_gen encode_table_gen enum_default_as_name_gen tuple_none_guard_gen gen_enum gen_path gen_list gen_tuple). Qed.
 
 Theorem optional_none_gen : forall u defn,
   match defn with Some VNone | None => True | _ => False end ->
   value_via_config_gen (TOpt u) defn (encode_cfg_gen VNone) = Ok VNone.
-Proof. exact (optional_none str2bool_gen enum_miss_cls_gen encode_table_gen enum_default_as_name_gen). Qed.
+Proof. exact (optional_none str2bool_gen enum_miss_cls_gen encode_table_gen enum_default_as_name_gen tuple_none_guard_gen). Qed.
 
 Theorem optional_some_gen : forall u defn v,
   is_item u = true -> has_type v u = true -> value_via_config_gen (TOpt u) defn (encode_cfg_gen v) = Ok v.
-Proof. exact (optional_some str2bool_gen enum_miss_cls_gen encode_table_gen enum_default_as_name_gen gen_enum gen_path gen_list gen_tuple). Qed.
+Proof. exact (optional_some str2bool_gen enum_miss_cls_gen encode_table_gen enum_default_as_name_gen tuple_none_guard_gen gen_enum gen_path gen_list gen_tuple). Qed.
 
 Theorem null_falls_back_gen : forall u d,
   cfg_type (TOpt u) = true -> has_type d (TOpt u) = true -> d <> VNone ->
   value_via_config_gen (TOpt u) (Some d) (encode_cfg_gen VNone) = Ok d.
-Proof. exact (null_falls_back str2bool_gen enum_miss_cls_gen encode_table_gen enum_default_as_name_gen). Qed.
+Proof. exact (null_falls_back str2bool_gen enum_miss_cls_gen encode_table_gen enum_default_as_name_gen tuple_none_guard_gen). Qed.
 
 Theorem list_comes_back_gen : forall u defn vs,
   value_via_config_gen (TList u) defn (encode_cfg_gen (VList vs)) = Ok (VList (map reload_gen vs)).
-Proof. exact (list_comes_back str2bool_gen enum_miss_cls_gen encode_table_gen enum_default_as_name_gen gen_enum gen_path gen_list gen_tuple). Qed.
+Proof. exact (list_comes_back str2bool_gen enum_miss_cls_gen encode_table_gen enum_default_as_name_gen tuple_none_guard_gen gen_enum gen_path gen_list gen_tuple). Qed.
 Theorem tupfix_comes_back_gen : forall ts defn vs,
   value_via_config_gen (TTupFix ts) defn (encode_cfg_gen (VTup vs)) = Ok (VTup (map reload_gen vs)).
-Proof. exact (tupfix_comes_back str2bool_gen enum_miss_cls_gen encode_table_gen enum_default_as_name_gen gen_enum gen_path gen_list gen_tuple). Qed.
+Proof. exact (tupfix_comes_back str2bool_gen enum_miss_cls_gen encode_table_gen enum_default_as_name_gen tuple_none_guard_gen gen_enum gen_path gen_list gen_tuple). Qed.
 Theorem reload_enum_gen : forall m, reload_gen (VEnum m) = VStr m.
 Proof. exact (reload_enum encode_table_gen gen_enum). Qed.
 Theorem reload_path_gen : forall s, reload_gen (VPath s) = VStr s.
 Proof. exact (reload_path encode_table_gen gen_path). Qed.
 
 Theorem tree_compose_gen : forall s x, loops_gen s x -> load_cfg_gen s (Some (to_dict_gen x)) = Ok x.
-Proof. exact (tree_compose str2bool_gen enum_miss_cls_gen encode_table_gen enum_default_as_name_gen). Qed.
+Proof. exact (tree_compose str2bool_gen enum_miss_cls_gen encode_table_gen enum_default_as_name_gen tuple_none_guard_gen). Qed.
 
 Theorem tree_loop_gen : forall sfx s x,
   str_in sfx four_suffixes = true -> in_quantifier s x = true -> side_conditions s x = true ->
   config_loop_gen sfx s x = Ok x.
-Proof. exact (tree_loop str2bool_gen enum_miss_cls_gen encode_table_gen extensions_gen enum_default_as_name_gen gen_enum gen_path gen_list gen_tuple gen_exts). Qed.
+Proof. exact (tree_loop str2bool_gen enum_miss_cls_gen encode_table_gen extensions_gen enum_default_as_name_gen tuple_none_guard_gen gen_enum gen_path gen_list gen_tuple gen_exts gen_tng). Qed.
 
 Theorem tree_meets_spec_gen : forall sfx s x,
   str_in sfx four_suffixes = true -> in_quantifier s x = true -> side_conditions s x = true ->
   spec_loop s x (config_loop_gen sfx s x) = true.
-Proof. exact (tree_meets_spec str2bool_gen enum_miss_cls_gen encode_table_gen extensions_gen enum_default_as_name_gen gen_enum gen_path gen_list gen_tuple gen_exts). Qed.
+Proof. exact (tree_meets_spec str2bool_gen enum_miss_cls_gen encode_table_gen extensions_gen enum_default_as_name_gen tuple_none_guard_gen gen_enum gen_path gen_list gen_tuple gen_exts gen_tng). Qed.
 
 Theorem rooted_same_gen : forall dest sfx s x,
   str_in sfx four_suffixes = true -> config_loop_rooted_gen dest sfx s x = config_loop_gen sfx s x.
-Proof. exact (rooted_same str2bool_gen enum_miss_cls_gen encode_table_gen extensions_gen enum_default_as_name_gen gen_enum gen_path gen_list gen_tuple gen_exts). Qed.
+Proof. exact (rooted_same str2bool_gen enum_miss_cls_gen encode_table_gen extensions_gen enum_default_as_name_gen tuple_none_guard_gen gen_enum gen_path gen_list gen_tuple gen_exts). Qed.
 
 (* Optional[Class] = None members *)
 Theorem optional_member_none_gen : forall s,
   member_loads s = true -> load_cfg_gen (SOpt s) (Some (to_dict_gen (ILeaf VNone))) = Ok (ILeaf VNone).
 Proof.
   intros s H. unfold load_cfg_gen, to_dict_gen. cbn [to_dict encode_cfg load_cfg].
-  rewrite (member_loads_ok str2bool_gen enum_miss_cls_gen enum_default_as_name_gen s H). reflexivity.
+  rewrite (member_loads_ok str2bool_gen enum_miss_cls_gen enum_default_as_name_gen tuple_none_guard_gen gen_tng s H). reflexivity.
 Qed.
 
-(* a member that is None whose class has a Tuple field without a default: postprocess calls tuple(None) *)
+(* regression witness (repaired by repo commit 41db46a; before it postprocess called tuple(None) and TypeError escaped):
+   a member that is None whose class has a Tuple field without a default *)
 Theorem witness_absent_member_tuple :
-  load_cfg_gen (SOpt (SNode [("t", SLeaf (TTupFix [TInt; TInt]) None)])) (Some (to_dict_gen (ILeaf VNone))) = Err (Raise "TypeError").
+  load_cfg_gen (SOpt (SNode [("t", SLeaf (TTupFix [TInt; TInt]) None)])) (Some (to_dict_gen (ILeaf VNone))) = Ok (ILeaf VNone).
 Proof. vm_compute. reflexivity. Qed.
 Theorem optional_member_some_gen : forall s xs,
   load_cfg_gen (SOpt s) (Some (to_dict_gen (INode xs))) = load_cfg_gen s (Some (to_dict_gen (INode xs))).
